@@ -17,7 +17,7 @@ RULE = ("preconditions of the supported fragment (random to depth 3; in the thor
         "states tested for that case")
 DECISIVE = ["compared"]
 DECISIVE_EACH = ["compared:true", "compared:false"]
-EXHAUSTIVE = "per (formula, call): all assignments of the relevant ground atoms when there are <= 7 (quick) / 8 (thorough) of them"
+EXHAUSTIVE = "per (formula, call): all assignments of the relevant ground atoms when there are <= 7 of them (<= 8 in the thorough sweep of the small vocabulary)"
 ASSUMPTIONS = ["refpddl.holds is the PDDL semantics (validated on shipped planner plans and by a second evaluation strategy)",
                "states define every fluent; numeric comparisons stay >= 1/64 away from equality unless exactly equal",
                "constants never inhabit a quantified type"]
@@ -169,7 +169,7 @@ def run(ctx):
     thorough = ctx.tier == "thorough"
     params_sweep = [("?x", "t0"), ("?y", "t0")]
     # ---- random formulas -----------------------------------------------------------------
-    n_domains = 40 if thorough else 6
+    n_domains = 30 if thorough else 6
     for d in range(n_domains):
         w = gen.gen_world(rng)
         acts = [(gen.gen_params(rng, w), None if d == 0 else ["and"])]  # '()' and '(and)' are always present
@@ -179,15 +179,15 @@ def run(ctx):
             pre = gen.gen_formula(rng, w, params, depth=rng.choice([1, 2, 3]), width=3,
                                   use_constants=0.15, allow_repeat=False)
             acts.append((params, pre))
-        run_domain(ctx, rng, w, acts, max_calls=6 if thorough else 4, bits=8 if thorough else 7, thorough=thorough)
+        run_domain(ctx, rng, w, acts, max_calls=6 if thorough else 4, bits=7, thorough=thorough)
     # ---- bounded sweep over the small vocabulary (sampled in quick, complete in thorough) ---
     srng = ctx.rng("sweep-formulas-shared") if False else __import__("random").Random(ctx.seed * 7919 + 17)
-    fs = sweep_formulas(srng, 9000 if thorough else 0)
+    fs = sweep_formulas(srng, 5000 if thorough else 0)
     mine = [f for j, f in enumerate(fs) if j % ctx.nshards == ctx.shard]
     if not thorough:
         mine = rng.sample(mine, min(len(mine), 12))
     ctx.notes["sweep_formulas_total"] = len(fs)
     for k in range(0, len(mine), 25):
         w = sweep_world()
-        run_domain(ctx, rng, w, [(params_sweep, f) for f in mine[k:k + 25]], max_calls=9 if thorough else 5,
+        run_domain(ctx, rng, w, [(params_sweep, f) for f in mine[k:k + 25]], max_calls=6 if thorough else 5,
                    bits=8 if thorough else 7, thorough=thorough)
